@@ -3,7 +3,8 @@
    inside the C01 engine; precheck = the BCTParamError checks, built on Model/Components.v = get_components). *)
 From Coq Require Import ZArith List Arith Permutation Lia Bool.
 From BCT Require Import Base.Mat Base.ListX Model.Components Model.Rewire
-     Proofs.RewireSwap Proofs.RewireInv Proofs.RewireRun Proofs.RewireConn Proofs.RewireGuards Proofs.RewireC11 Proofs.RewirePre.
+     Proofs.RewireSwap Proofs.RewireInv Proofs.RewireRun Proofs.RewireConn Proofs.RewireGuards Proofs.RewireC11 Proofs.RewirePre
+     Proofs.RewireFuel Proofs.RewireRefuted Proofs.RewireExamples.
 Import ListNotations.
 Open Scope Z_scope.
 
@@ -31,32 +32,68 @@ Proof. exact dir_conn_guard_sound. Qed.
    latticised-order matrix and the state after every accepted swap are connected / strongly connected *)
 Theorem C11_run_connected : forall r n R0 itr D s0 res,
   is_conn r = true ->
-  run_routine r n R0 itr D s0 = Some res ->
+  run_routine r n R0 itr D s0 = Done res ->
   (is_und r = true -> forall x y, R0 x y = R0 y x) -> (forall x, R0 x x = 0) ->
   (is_latt r = true -> Permutation (r_perm res) (seq 0 n)) ->
   connected n R0 ->
   connected n (r_out res) /\ connected n (r_rp res) /\ Forall (fun ev => connected n (sR (snd ev))) (r_trace res).
 Proof. exact run_connected. Qed.
 
-(* the undirected variants check their input: whatever passes is symmetric and connected, i.e. asymmetric or
-   disconnected input is rejected (run_routine returns None = BCTParamError) *)
+(* the undirected variants check their input: whatever passes is symmetric and connected ... *)
 Theorem C11_und_precondition : forall r n R0,
   is_und r = true -> is_conn r = true -> precheck r n R0 = true -> sym_on n R0 /\ connected n R0.
 Proof. exact precheck_und_connected. Qed.
 
+(* ... and whatever is symmetric and connected passes (completeness of the check, from the C16 model of get_components) *)
+Theorem C11_und_precondition_complete : forall r n R0,
+  is_und r = true -> is_conn r = true -> sym_on n R0 -> connected n R0 -> precheck r n R0 = true.
+Proof. exact precheck_und_complete. Qed.
+
+(* asymmetric or disconnected input is REJECTED — the outcome that stands for BCTParamError, distinct from running out
+   of draws (StreamEnd), from other exceptions (Raises) and from returning (Done) — for every itr, D and stream ... *)
 Theorem C11_und_rejects : forall r n R0 itr D s0,
-  is_und r = true -> is_conn r = true -> ~ (sym_on n R0 /\ connected n R0) -> run_routine r n R0 itr D s0 = None.
-Proof.
-  intros r n R0 itr D s0 U C H. unfold run_routine.
-  destruct (precheck r n R0) eqn:P; [|reflexivity]. exfalso. apply H. apply (precheck_und_connected r n R0 U C P).
-Qed.
+  is_und r = true -> is_conn r = true -> ~ (sym_on n R0 /\ connected n R0) -> run_routine r n R0 itr D s0 = Rejected.
+Proof. exact run_und_rejects. Qed.
+
+(* ... and symmetric connected input is never rejected *)
+Theorem C11_und_accepts : forall r n R0 itr D s0,
+  is_und r = true -> is_conn r = true -> sym_on n R0 -> connected n R0 -> run_routine r n R0 itr D s0 <> Rejected.
+Proof. exact run_und_accepts. Qed.
+
+(* the searches are given the fuel S n: they always stop by themselves within it (the variant with an explicit
+   out-of-fuel answer never gives it), and more fuel changes nothing — the `false` of the Fixpoints at fuel 0 decides no test *)
+Theorem C11_und_search_fuel : forall n R b c P0 P1 PN0 PN1,
+  und_conn_loop_o (S n) n R b c P0 P1 PN0 PN1 = Some (und_conn_loop (S n) n R b c P0 P1 PN0 PN1) /\
+  forall f, (S n <= f)%nat -> und_conn_loop f n R b c P0 P1 PN0 PN1 = und_conn_loop (S n) n R b c P0 P1 PN0 PN1.
+Proof. exact und_search_fuel. Qed.
+
+Theorem C11_dir_search_fuel : forall n R a b c d P0 P1 PN0 PN1,
+  dir_conn_loop_o (S n) n R a b c d P0 P1 PN0 PN1 = Some (dir_conn_loop (S n) n R a b c d P0 P1 PN0 PN1) /\
+  forall f, (S n <= f)%nat -> dir_conn_loop f n R a b c d P0 P1 PN0 PN1 = dir_conn_loop (S n) n R a b c d P0 P1 PN0 PN1.
+Proof. exact dir_search_fuel. Qed.
+
+(* the tests are not trivial: each answers true for one swap and false for another on the same network *)
+Example C11_guard_nonvacuous :
+  (und_conn_guard 6 ring6 0 1 4 3 = true /\ und_conn_guard 6 ring6 0 1 3 4 = false) /\
+  (dir_conn_guard 6 dring6c 3 0 4 5 = true /\ dir_conn_guard 6 dring6c 0 1 3 4 = false).
+Proof. exact (conj und_guard_nonvacuous dir_guard_nonvacuous). Qed.
+
+(* completeness of the undirected test is NOT claimed, and is false of the code as written: on the path 0-1-2-3-4 the
+   swap 0-1, 4-3 -> 0-3, 4-1 keeps the network connected, yet the test refuses it (a frontier row that is empty in the
+   first round ends the search).  Not a violation of the property (which only demands that accepted swaps keep
+   connectivity); recorded so that nobody reads the soundness theorem as an equivalence. *)
+Example C11_und_test_incomplete :
+  connected 5 path5 /\ connected 5 (swap_und path5 0 1 4 3) /\
+  path5 0%nat 3%nat = 0 /\ path5 4%nat 1%nat = 0 /\ path5 0%nat 1%nat <> 0 /\ path5 4%nat 3%nat <> 0 /\
+  und_conn_guard 5 path5 0 1 4 3 = false.
+Proof. exact und_test_incomplete. Qed.
 
 (* latticisation never increases sum(D*R) for the distance matrix in use; undirected routines: for symmetric D
    (the default ring distance is symmetric: C11_ring_dist_sym).  For an ASYMMETRIC caller-supplied D the undirected
    routines can increase it: C11_lattice_cost_und_asym_refuted. *)
 Theorem C11_lattice_cost : forall r n R0 itr D s0 res,
   is_latt r = true ->
-  run_routine r n R0 itr D s0 = Some res ->
+  run_routine r n R0 itr D s0 = Done res ->
   (is_und r = true -> (forall x y, R0 x y = R0 y x) /\ (forall x, R0 x x = 0)) ->
   let Dm := match D with Some D' => D' | None => ring_dist n end in
   (is_und r = true -> forall x y, Dm x y = Dm y x) ->
@@ -88,17 +125,35 @@ Qed.
 (* randomize_graph_partial_und never creates a connection where a (symmetric) mask is nonzero — final matrix and
    every intermediate state *)
 Theorem C11_mask : forall n A B maxswap s0 res,
-  run_partial_und n A B maxswap s0 = Some res ->
+  run_partial_und n A B maxswap s0 = Done res ->
   (forall x y, A x y = A y x) -> (forall x, A x x = 0) -> (forall x y, B x y = B y x) ->
   MaskOK A B (r_out res) /\ Forall (fun ev => MaskOK A B (sR (snd ev))) (r_trace res).
 Proof. exact run_partial_mask. Qed.
+
+(* with an ASYMMETRIC mask the clause is false (open finding randomize_graph_partial_und:asymmetric-mask): one accepted
+   swap that passes the mask test and fills a marked cell *)
+Theorem C11_mask_asym_refuted :
+  exists (A B : mat Z) (a b c d : nat),
+    (forall x y, A x y = A y x) /\ four_ok a b c d = true /\ A a b <> 0 /\ A c d <> 0 /\ A a d = 0 /\ A c b = 0 /\
+    mask_guard B A a b c d = true /\
+    ~ MaskOK A B (swap_und A a b c d).
+Proof. exact mask_asym_refuted. Qed.
+
+(* non-vacuity of the run theorems: recorded runs of the implementation replayed by the model (Proofs/RewireExamples.v) *)
+Definition C11_runs_nonvacuous := (ex_randmio_und_connected, ex_randmio_dir_connected, ex_latmio_und_connected, ex_latmio_dir_connected,
+       ex_latmio_und, ex_latmio_dir, ex_partial_und).
 
 Print Assumptions C11_und_test_sound.
 Print Assumptions C11_dir_test_sound.
 Print Assumptions C11_run_connected.
 Print Assumptions C11_und_precondition.
+Print Assumptions C11_und_precondition_complete.
 Print Assumptions C11_und_rejects.
+Print Assumptions C11_und_accepts.
+Print Assumptions C11_und_search_fuel.
+Print Assumptions C11_dir_search_fuel.
 Print Assumptions C11_lattice_cost.
 Print Assumptions C11_ring_dist_sym.
 Print Assumptions C11_lattice_cost_und_asym_refuted.
 Print Assumptions C11_mask.
+Print Assumptions C11_mask_asym_refuted.
